@@ -231,10 +231,32 @@ func runCaseInner(c Case) vlib.Result {
 	// answered pings that follow it, so after a failure the pongs only have to be a prefix-consistent
 	// answer to the pings actually on the wire.
 	var allPings [][]byte
+	openPing := false
 	for _, f := range frames {
 		if f.Op == vlib.OpPing && f.Fin && len(f.Payload) <= 125 && !f.R1 && !f.R2 && !f.R3 && !f.TopBit {
 			allPings = append(allPings, f.Payload)
 		}
+		if f.Op == vlib.OpPing && f.R1 && c.Compression {
+			// RSV1 on a control frame with compression negotiated is left open by the model: the
+			// library may or may not answer it, with whatever payload
+			openPing = true
+		}
+	}
+	if openPing && m.Failed {
+		// only the pings the model owes an answer for are asserted (in order, as a prefix)
+		if len(pongs) < len(m.OwedPongs) {
+			res.Err = fmt.Errorf("%d pings were received, only %d pongs written", len(m.OwedPongs), len(pongs))
+			return res
+		}
+		for i := range m.OwedPongs {
+			if !bytes.Equal(pongs[i], m.OwedPongs[i]) {
+				res.Err = fmt.Errorf("pong %d carries %q, the ping carried %q", i, pongs[i], m.OwedPongs[i])
+				return res
+			}
+		}
+		res.Classes = append(res.Classes, "open: RSV1 ping behind an offence")
+		res.NonTrivial = true
+		return res
 	}
 	if len(pongs) < len(m.OwedPongs) {
 		res.Err = fmt.Errorf("%d pings were received, only %d pongs written", len(m.OwedPongs), len(pongs))
